@@ -476,8 +476,9 @@ class Savable:
 
     @classmethod
     def auto_persist(cls, *members: str) -> None:
-        if cls._auto_persist is None:
-            cls._auto_persist = set()
+        if cls._auto_persist is None or '_auto_persist' not in cls.__dict__:
+            # Never extend the set inherited from a parent class in place
+            cls._auto_persist = set(cls._auto_persist or ())
         cls._auto_persist.update(members)
 
     @classmethod
